@@ -558,6 +558,17 @@ impl<T: Payload> World<T> {
                 Some(i) => B::RemoveSubtree(*x, i),
                 None => return out,
             },
+            Op::ObsPull { x, it, word } => {
+                // C10 is model-free: pull schedules on any node that is live in the real arena
+                if real_live(self, *x).is_some() {
+                    out.skipped = false;
+                    self.step_no += 1;
+                    self.stats.steps += 1;
+                    self.stats.probe("blind_step");
+                    self.obs_pull(*x, *it, word, &mut out.viols);
+                }
+                return out;
+            }
             _ => return out,
         };
         out.skipped = false;
@@ -880,6 +891,33 @@ impl<T: Payload> World<T> {
         })
         .unwrap_or(None);
         self.m.adopt_alloc(k, id, val, serial, self.step_no);
+        // C11 at the moment of issue (liveness is beyond doubt here): the id just returned
+        // resolves, and its position resolves back to it
+        let arena = &self.arena;
+        let agree = catch(|| {
+            let pos = NonZeroUsize::new(slot_of(id)).unwrap();
+            let a = arena.get_node_id_at(pos) == Some(id);
+            let b = arena.get(id).is_some_and(|n| !n.is_removed() && arena.get_node_id(n) == Some(id));
+            let c = !id.is_removed(arena);
+            (a, b, c)
+        });
+        match agree {
+            Ok((true, true, true)) => {}
+            Ok((a, b, c)) => {
+                viols.push(viol(
+                    "C11",
+                    "fresh_id_lookup_disagrees",
+                    format!(
+                        "id just returned for position {}: get_node_id_at gives it back: {}, get/get_node_id agree: {}, not removed: {}",
+                        slot_of(id),
+                        a,
+                        b,
+                        c
+                    ),
+                ));
+            }
+            Err(p) => viols.push(viol("C11", "panic_in_lookup", p)),
+        }
         true
     }
 
@@ -1030,6 +1068,7 @@ impl<T: Payload> World<T> {
                     Ok(()) => {
                         self.check_window(mark, &[serial], &[], "remove", &mut out.viols);
                         self.m.remove(*x);
+                        self.check_removed_position(id, &mut out.viols);
                         self.apply_shadow(
                             |sh| raw_from(catch(|| id.remove(sh)), |_| vec![]),
                             &raw_ok(vec![]),
@@ -1258,6 +1297,22 @@ impl<T: Payload> World<T> {
                 }
             }
             _ => unreachable!(),
+        }
+    }
+
+    /// C11 at the moment of removal: the position of a node that was removed a moment ago
+    /// resolves to no id.
+    fn check_removed_position(&mut self, id: NodeId, viols: &mut Vec<Viol>) {
+        let arena = &self.arena;
+        let r = catch(|| arena.get_node_id_at(NonZeroUsize::new(slot_of(id)).unwrap()));
+        match r {
+            Ok(None) => {}
+            Ok(Some(_)) => viols.push(viol(
+                "C11",
+                "get_node_id_at_removed",
+                format!("position {} was removed a moment ago but get_node_id_at gives Some", slot_of(id)),
+            )),
+            Err(p) => viols.push(viol("C11", "panic_in_lookup", p)),
         }
     }
 
@@ -1654,6 +1709,7 @@ impl<T: Payload> World<T> {
             }
             self.check_window(mark, &[serial], &[], "remove (cycle)", &mut out.viols);
             self.m.remove(cur);
+            self.check_removed_position(id, &mut out.viols);
             match catch(|| id.is_removed(&self.arena)) {
                 Ok(true) => {}
                 Ok(false) => {
